@@ -55,14 +55,14 @@ def natStr (n : Nat) : String := toString n
 def hex4 (n : Nat) : String :=
   String.ofList [hexDigit (n / 4096 % 16), hexDigit (n / 256 % 16), hexDigit (n / 16 % 16), hexDigit (n % 16)]
 
-/-- NextParserEtype: the key suffix uses `uint16(etherType[0]<<8) | uint16(etherType[1])`,
-    where the byte shift overflows to 0 — i.e. only the low byte -/
+/-- NextParserEtype: the per-packet keys carry the ethertype in decimal and as four hex digits (after the `fix:`
+    commit; the pinned tree shifted the high byte inside a uint8, so the keys carried only the low byte) -/
 def nextParserEtype (e0 e1 : Nat) : Next :=
   let et := e0 * 256 + e1
   let p : Parser :=
     if et = 0x199e then .ethernet else if et = 0x6558 then .ethernet else if et = 0x8847 then .mpls
     else if et = 0x8100 then .dot1q else if et = 0x0800 then .ipv4 else if et = 0x86dd then .ipv6 else .none
-  ⟨p, p.keys ++ ["etype" ++ natStr e1, "etype0x" ++ hex4 e1], false⟩
+  ⟨p, p.keys ++ ["etype" ++ natStr et, "etype0x" ++ hex4 et], false⟩
 
 def nextParserProto (proto : Nat) : Next :=
   let p : Parser :=
